@@ -805,3 +805,96 @@ Qed.
 Theorem refused_file_has_no_ok_line fl e : pre_ok e = false -> file_ok_lines fl e = 0.
 Proof. intros H. rewrite verify_one_ok_lines. unfold spec_lines. cbn [fst]. rewrite H. reflexivity. Qed.
 
+(* ------------------------------------------------------------------ trust pool of loadCerts *)
+(* cbn on a goal that contains a whole generated program, recorded as a VM cast (the kernel's default conversion can take minutes
+   to re-check such a step; the VM does it at once) *)
+Ltac vm_cbn := match goal with |- ?G => let G' := eval cbn -[iter] in G in refine ((_ : G') <: G) end.
+
+Definition cnt3 (s : st) : nat := List.length (filter (fun c => Nat.eqb (fst (fst c)) 3) (s_calls s)).
+Lemma s_out_add_lost s l : s_out (add_lost s l) = s_out s.
+Proof. reflexivity. Qed.
+Lemma cnt3_add_lost s l : cnt3 (add_lost s l) = cnt3 s.
+Proof. reflexivity. Qed.
+Lemma iter_simple f path :
+  (forall p s, exists s', f p s = (KNorm, s') /\ s_out s' = s_out s /\ s_err s' = s_err s /\ cnt3 s' = cnt3 s + 1) ->
+  forall k i s, exists s', iter f path k i s = (KNorm, s') /\ s_out s' = s_out s /\ s_err s' = s_err s /\ cnt3 s' = cnt3 s + k.
+Proof.
+  intros Hf. induction k as [|k IH]; intros i s.
+  - exists s. cbn. repeat split; auto.
+  - cbn [iter]. destruct (Hf (i :: path) s) as [s1 [E1 [Ho1 [He1 Hc1]]]]. rewrite E1.
+    destruct (IH (S i) s1) as [s' [E [Ho [He Hc]]]]. exists s'. split; [exact E|]. repeat split; try congruence. lia.
+Qed.
+
+Ltac pool_loop_case :=
+  vm_cbn;
+  match goal with |- context [iter ?f [] ?kk 0 ?s] =>
+      let H := fresh "H" in
+      assert (H : forall p s0, exists s', f p s0 = (KNorm, s') /\ s_out s' = s_out s0 /\ s_err s' = s_err s0 /\ cnt3 s' = cnt3 s0 + 1);
+      [intros p s0; eexists; split; [reflexivity|]; repeat split;
+       unfold cnt3; cbn [add_lost log_call s_calls]; rewrite filter_app, app_length; cbn; lia|];
+      let s' := fresh "s'" in let E := fresh "E" in let Ho := fresh "Ho" in let He := fresh "He" in let Hc := fresh "Hc" in
+      destruct (iter_simple f [] H kk 0 s) as [s' [E [Ho [He Hc]]]]; rewrite E; clear H;
+      cbn [fst snd];
+      (split; [exists None; split; [reflexivity|split; reflexivity]|intros _; split;
+         [rewrite s_out_add_lost, Ho; vm_compute; reflexivity|change (addcert_calls ?x) with (cnt3 x); rewrite cnt3_add_lost, Hc; vm_compute; reflexivity]]) end.
+
+Theorem load_certs_pool_spec certs_ok have_x509 system sys_ok n :
+  let r := run_fn (oracle_of_load certs_ok have_x509 system sys_ok n) (f_prog p_load_certs) in
+  (exists v, fst r = KRet v /\ (v = None <-> certs_ok && (negb have_x509 || negb system || sys_ok) = true)) /\
+  (fst r = KRet None -> pool_effects (s_out (snd r)) = spec_pool have_x509 system /\ addcert_calls (snd r) = if have_x509 then n else 0).
+Proof.
+  cbv zeta. unfold run_fn, spec_pool.
+  destruct certs_ok; [|vm_compute; split; [eexists; split; [reflexivity|split; discriminate]|discriminate]].
+  destruct have_x509; [|vm_compute; split; [eexists; split; [reflexivity|split; reflexivity]|intros _; split; reflexivity]].
+  destruct system, sys_ok.
+  - pool_loop_case.
+  - vm_compute; split; [eexists; split; [reflexivity|split; discriminate]|discriminate].
+  - pool_loop_case.
+  - pool_loop_case.
+Qed.
+
+(* ------------------------------------------------------------------ RPM glue: an unknown signer is an error unless --no-trust-chain *)
+Definition rpm_items : list stmt := Eval vm_compute in flatten (f_prog p_rpm_verify).
+Definition rpm_pre : list stmt := Eval vm_compute in fst (fst (split_loop rpm_items)).
+Definition rpm_body : stmt := Eval vm_compute in match snd (fst (split_loop rpm_items)) with Some (_, b) => b | None => SUnknown 0 end.
+Definition rpm_post : list stmt := Eval vm_compute in snd (split_loop rpm_items).
+Lemma rpm_shape : flatten (f_prog p_rpm_verify) = rpm_pre ++ SLoop 0 rpm_body :: rpm_post.
+Proof. vm_compute. reflexivity. Qed.
+
+Lemma rpm_body_step no_chain n seen nosigner i s :
+  exec (oracle_of_rpm no_chain n seen nosigner) rpm_body [i] s =
+  if seen i then (KCont, s)
+  else if nosigner i then (if no_chain then (KNorm, s) else (KRet (Some (OFresh 1, 0)), add_lost s (others (s_err s) [])))
+  else (KNorm, s).
+Proof. unfold rpm_body. cbn. destruct (seen i), (nosigner i), no_chain; reflexivity. Qed.
+
+Lemma rpm_loop no_chain n seen nosigner : forall k i s,
+  forall r, r = iter (exec (oracle_of_rpm no_chain n seen nosigner) rpm_body) [] k i s ->
+  if forallb (rpm_sig_ok no_chain seen nosigner) (seq i k) then fst r = KNorm /\ s_err (snd r) = s_err s
+  else exists x, fst r = KRet (Some x).
+Proof.
+  induction k as [|k IH]; intros i s r ->; [cbn; auto|].
+  cbn [iter seq forallb]. rewrite rpm_body_step. unfold rpm_sig_ok at 1.
+  destruct (seen i); cbn [orb andb negb].
+  - exact (IH (S i) s _ eq_refl).
+  - destruct (nosigner i); cbn [orb andb negb].
+    + destruct no_chain; cbn [orb andb negb].
+      * exact (IH (S i) s _ eq_refl).
+      * eexists. reflexivity.
+    + exact (IH (S i) s _ eq_refl).
+Qed.
+
+Theorem rpm_unknown_key_rejected no_chain n seen nosigner :
+  let r := run_fn (oracle_of_rpm no_chain n seen nosigner) (f_prog p_rpm_verify) in
+  exists v, fst r = KRet v /\ (v = None <-> negb (Nat.eqb n 0) && forallb (rpm_sig_ok no_chain seen nosigner) (seq 0 n) = true).
+Proof.
+  cbv zeta. unfold run_fn. rewrite exec_flatten, rpm_shape, exec_list_app.
+  destruct n as [|m].
+  - vm_compute. eexists. split; [reflexivity|split; discriminate].
+  - set (pre := exec_list _ rpm_pre [] _). vm_compute in pre. subst pre. cbv beta iota. cbn [exec_list exec].
+    change (o_loop (oracle_of_rpm no_chain (S m) seen nosigner) 0 []) with (S m).
+    match goal with |- context [iter ?f [] (S m) 0 ?s] => pose proof (rpm_loop no_chain (S m) seen nosigner (S m) 0 s _ eq_refl) as L; destruct (iter f [] (S m) 0 s) as [k0 s1] end.
+    cbn [fst snd] in L. cbn [negb Nat.eqb andb]. destruct (forallb (rpm_sig_ok no_chain seen nosigner) (seq 0 (S m))).
+    + destruct L as [-> _]. unfold rpm_post. cbn. eexists. split; [reflexivity|tauto].
+    + destruct L as [x ->]. cbn. eexists. split; [reflexivity|split; discriminate].
+Qed.
